@@ -10,7 +10,9 @@ is dumped before and after each execute and must be unchanged.
 Exhaustive: all interleavings of two executions (pull A / pull B / destroy A / destroy B) up to
 a length bound for a fixed list of programs covering every stateful construct and the DWARF
 producers with caches.  Random: seeded longer histories with three live result sets; failing
-histories are shrunk by deleting operations.
+histories are shrunk by deleting operations.  Mixed: different queries executed one after the other in one
+process (state that leaks between queries: libdw's error word, function-local statics, caches of the
+Dwfl context), each compared with its own fresh-process reference.
 """
 import itertools, json, os, random, time
 
@@ -24,7 +26,9 @@ RULE = ("programs: 46 fixed queries (every construct with per-input state: , || 
         "sequences, one DWARF value shared by all executions, raw and cooked).  Exhaustive: all sequences over {pull A, pull B, "
         "destroy A, destroy B} up to length 5 (quick) / 7 (thorough) for each program, A and B being two executions of one "
         "compiled query (same or different input, or of two compilations of the text).  Random: histories of 10-40 operations "
-        "over 3 live result sets, 2 query objects per text, recompilation.  Non-trivial: two result sets of one query were pulled "
+        "over 3 live result sets, 2 query objects per text, recompilation.  Mixed: sequences of 3-12 *different* queries (core, "
+        "DWARF words incl. high/low/address/@AT_const_value/abbrev/symbol, on sample files and on an object compiled here) run one "
+        "after the other in one process, each compared with its own fresh-process run.  Non-trivial: two result sets of one query were pulled "
         "alternately at least twice, or a result set was abandoned mid-way and the query executed again.  Distinct by history.")
 
 CORE_PROGRAMS = [
@@ -47,8 +51,14 @@ FILES = ["a1.out", "nontrivial-types.o", "dwz-partial2-1", "bitcount.o"]
 STRIP = ("dw", "di", "id", "sh")
 
 
+# libdw stores a host pointer in Dwarf_Op::number2 for these operations (the block they carry)
+PTR_OPS = (0x9e, 0xa3, 0xa4, 0xf3, 0xf4)
+
+
 def canon(v):
     if isinstance(v, dict):
+        if v.get("atom") in PTR_OPS:
+            return {k: canon(x) for k, x in v.items() if k != "n2"}
         return {k: canon(x) for k, x in v.items() if k not in STRIP}
     if isinstance(v, list):
         return [canon(x) for x in v]
@@ -336,6 +346,152 @@ def work_random(task):
     return ev
 
 
+# ------------------------------------------------------------- different queries in one process
+
+MIX_DW = DW_PROGRAMS + [
+    "entry high", "entry low", "entry address", "entry @AT_const_value", "entry @AT_decl_file", "entry (@AT_type)*", "unit",
+    "entry @AT_location elem value", "abbrev entry", "abbrev entry attribute", "symbol label", "symbol address", "symbol name",
+    "entry attribute (label, form)", "entry ?AT_declaration", "entry name", "entry @AT_byte_size", "entry @AT_upper_bound",
+    "entry ?TAG_subprogram @AT_high_pc", "entry @AT_data_member_location", "entry @AT_language", "entry @AT_encoding",
+    "[entry @AT_const_value] [entry high]", "entry root", "entry unit", "entry abbrev offset",
+]
+# (the backticked capture is not documented; it is listed because its compiled form must not depend
+# on what was compiled earlier any more than that of any other construct)
+MIX_CORE = CORE_PROGRAMS + ["5 6 7 `[1]", "5 6 7 ``[1, 2]", "1 2 3 4 ```[]", "5 6 7 `[]", "[1, 2] \"%s\"", "0x10 \"%x %o %b %d\"",
+                            "(1, 2) \"%( (3, 4) %)\" pos", "\"abc\" elem pos", "1 0 div", "1 \"a\" add", "(1, 2, 3) (== 2) drop drop"]
+
+ANON_SRC = """
+struct S { int a; short b; };
+template <int N, short M, bool B> struct T { int x[N]; };
+int g (int, void *);
+enum E { E0, E1 = -1, E2 = 70000 };
+int f (int x)
+{
+  const struct {short a, b;} anon = {7, 9};
+  const int arr[2] = {1, 2};
+  const E e = E2;
+  static T<200, -3, true> t;
+  const long long big = -5000000000LL;
+  return g (x + anon.a + arr[1] + e + (int) big, &t);
+}
+"""
+
+
+def mix_files():
+    """Sample binaries plus one object compiled here (constants of unnamed types, template value
+    parameters, enumerations, ranges).  Returns paths; the compiled one is skipped if g++ is missing."""
+    import subprocess
+    from ..drv import BUILD
+    out = [os.path.join("/repo/tests", fn) for fn in FILES]
+    d = os.path.join(BUILD, "run")
+    os.makedirs(d, exist_ok=True)
+    src, obj = os.path.join(d, "c12-anon.cc"), os.path.join(d, "c12-anon.o")
+    if not os.path.exists(obj):
+        open(src, "w").write(ANON_SRC)
+        tmp = obj + ".%d" % os.getpid()
+        r = subprocess.run(["g++", "-g", "-O1", "-c", src, "-o", tmp], stdout=subprocess.PIPE, stderr=subprocess.PIPE)
+        if r.returncode == 0:
+            os.replace(tmp, obj)
+    if os.path.exists(obj):
+        out.append(obj)
+    return out
+
+
+def mix_ref(cache, prog, path, raw, core_inp):
+    key = (prog, path, raw, core_inp)
+    if key in cache:
+        return cache[key]
+    d = Driver(timeout=120)
+    try:
+        tok = core_inp if path is None else "V%d" % d.open(path, raw)
+        r = d.run(prog, tok, limit=300, steps=20000000)
+    finally:
+        d.kill()
+    seq = None if "cerror" in r else {"res": [canon(x) for x in r["res"]], "end": bool(r.get("end")), "error": r.get("error"),
+                                      "stderr": r["stderr"].count(b"Error")}
+    cache[key] = seq
+    return seq
+
+
+def run_mix(steps, cache):
+    """steps: [(prog, path, raw, core_inp)].  All in one driver process, one file handle per (path, raw),
+    every query compiled afresh, each result set drained.  Returns (index, reason) or None."""
+    d = Driver(timeout=120)
+    toks = {}
+    try:
+        for k, (prog, path, raw, core_inp) in enumerate(steps):
+            ref = mix_ref(cache, prog, path, raw, core_inp)
+            if ref is None:
+                continue
+            if path is not None and (path, raw) not in toks:
+                toks[(path, raw)] = "V%d" % d.open(path, raw)
+            tok = core_inp if path is None else toks[(path, raw)]
+            r = d.run(prog, tok, limit=300, steps=20000000)
+            if "cerror" in r:
+                return k, "compiles in a fresh process, here: %r" % r["cerror"]
+            got = {"res": [canon(x) for x in r["res"]], "end": bool(r.get("end")), "error": r.get("error"),
+                   "stderr": r["stderr"].count(b"Error")}
+            if got != ref:
+                if len(got["res"]) != len(ref["res"]) or got["error"] != ref["error"] or got["end"] != ref["end"]:
+                    return k, "as step %d of a sequence: %d results, error %r; in a fresh process: %d results, error %r" % (
+                        k, len(got["res"]), got["error"], len(ref["res"]), ref["error"])
+                j = next((j for j in range(len(ref["res"])) if got["res"][j] != ref["res"][j]), -1)
+                return k, "as step %d of a sequence result #%d is %s; in a fresh process %s (diagnostics %d vs %d)" % (
+                    k, j, json.dumps(got["res"][j])[:200] if j >= 0 else "-", json.dumps(ref["res"][j])[:200] if j >= 0 else "-",
+                    got["stderr"], ref["stderr"])
+        return None
+    finally:
+        d.kill()
+
+
+def work_mix(task):
+    seed, start, count = task
+    ev = Evidence()
+    cache = {}
+    files = mix_files()
+    for i in range(start, start + count):
+        rnd = random.Random((seed << 32) ^ (i * 2654435761 & 0xffffffff) ^ 0x12C)
+        steps = []
+        fset = rnd.sample(files, min(len(files), rnd.randint(1, 2)))
+        for _ in range(rnd.randint(3, 9)):
+            if rnd.random() < 0.7:
+                steps.append((rnd.choice(MIX_DW), rnd.choice(fset), rnd.random() < 0.25, ""))
+            else:
+                p = rnd.choice(MIX_CORE)
+                ins = [x for x in CORE_INPUTS if applicable(p, x)]
+                steps.append((p, None, False, rnd.choice(ins) if ins else ""))
+        if rnd.random() < 0.5:
+            steps += [rnd.choice(steps) for _ in range(rnd.randint(1, 3))]      # the same thing again later
+        try:
+            bad = run_mix(steps, cache)
+            ev.case(key=("mix", repr(steps)), nontrivial=len(set(s_[0] for s_ in steps)) >= 3)
+            ev.label("mixed-sequence")
+            if bad:
+                # shrink: drop steps while the same step still fails
+                k, why = bad
+                culprit = steps[k]
+                cur = list(steps[:k + 1])
+                changed = True
+                while changed and len(cur) > 1:
+                    changed = False
+                    for j in range(len(cur) - 1):
+                        cand = cur[:j] + cur[j + 1:]
+                        b2 = run_mix(cand, cache)
+                        if b2 and cand[b2[0]] == culprit:
+                            cur, why, changed = cand[:b2[0] + 1], b2[1], True
+                            break
+                ev.violations.append({"property": PID, "kind": "mix", "steps": cur, "reason": "%s  [query: %s on %s]" % (why, culprit[0], culprit[1] or repr(culprit[3])),
+                                      "signature": "C12:mix:%s:%s" % (culprit[0], why[:60])})
+            elif rnd.random() < 0.02:
+                ev.sample({"sequence": [(s_[0], os.path.basename(s_[1]) if s_[1] else s_[3]) for s_ in steps]})
+        except DriverCrash as e:
+            ev.violations.append({"property": PID, "kind": "mix", "steps": steps, "reason": "driver crashed: " + e.report[-3000:],
+                                  "signature": "C12:mixcrash:" + repr(steps)[:100]})
+        except DriverTimeout:
+            ev.inconc("watchdog")
+    return ev
+
+
 def main(tier, seed):
     t0 = time.time()
     maxlen = 5 if tier == "quick" else 7
@@ -345,6 +501,11 @@ def main(tier, seed):
     n = 2000 if tier == "quick" else 40000
     per = max(10, n // 48)
     ev.merge(run_pool(work_random, [(seed, s, min(per, n - s), tier) for s in range(0, n, per)]))
+    n = 1200 if tier == "quick" else 30000
+    per = max(10, n // 48)
+    mix_files()        # compile the fixture once, before the workers fork
+    ev.merge(run_pool(work_mix, [(seed, s_, min(per, n - s_)) for s_ in range(0, n, per)]))
+    ev.extra["mixed_sequences"] = n
     ev.extra["programs"] = len(pis)
     ev.extra["interleaving_length_bound"] = maxlen
     return finish(PID, tier, seed, ev, RULE, t0, exhaustive=True,
@@ -352,11 +513,17 @@ def main(tier, seed):
                                "destroying a query while one of its result sets is live is not exercised (not documented as allowed)",
                                "exhaustive=true: all interleavings up to the stated length for the fixed program list"],
                   health={"programs enumerated": ev.labels.get("exhaustive-program", 0) >= 30,
-                          "random histories": ev.labels.get("random-history", 0) > 100})
+                          "random histories": ev.labels.get("random-history", 0) > 100,
+                          "mixed sequences": ev.labels.get("mixed-sequence", 0) > 100})
 
 
 def replay(path):
     rec = json.load(open(path))
+    if rec.get("kind") == "mix":
+        mix_files()
+        bad = run_mix([tuple(x) for x in rec["steps"]], {})
+        print(bad)
+        return 1 if bad else 0
     R = Ref()
     inputs = [tuple(x) for x in rec["inputs"]]
     refs = [R.get(rec["query"], k, i, None) for k, i in inputs]
